@@ -79,6 +79,9 @@ def cases(rng, tier, X):
     out = sweep(tier)
     n = 300 if tier == 'quick' else 30000
     out += [('hist%d' % k, history(rng)) for k in range(n)]
+    # universal traffic (every frame type / sender / path / service / boundary value, 1..3 interfaces): this check's predicate on it
+    for k in range(60 if tier == 'quick' else 6000):
+        out.append(('u%d' % k, F.universal(rng)))
     return out
 
 
